@@ -18,6 +18,8 @@ def main():
             prev = res.get(d["seed"], {})
             merged = dict(prev)
             merged.update(d)           # later runs (--no-confirm) keep the earlier confirmation fields
+            if d.get("check_rc") in (0, 1):
+                merged["history"] = prev.get("history", []) + [bool(d.get("detected"))]
             res[d["seed"]] = merged
     rows = []
     for seed in sorted(res):
@@ -39,9 +41,11 @@ def main():
         meta["check_exit"] = d.get("check_rc")
         meta["detected"] = bool(d.get("detected"))
         meta["divergence_keys"] = d.get("divergence_keys", [])
+        hist = d.get("history", [])
+        meta["missed_before_strengthening"] = bool(hist) and not hist[0]
         json.dump(meta, open(os.path.join(dst, "meta.json"), "w"), indent=1)
         rows.append((seed, meta.get("summary", "")[:160].replace("\n", " "), meta.get("needs", "")[:160].replace("\n", " "),
-                     ("caught: " + ", ".join(meta["divergence_keys"])) if meta["detected"] else "MISSED (exit %s)" % d.get("check_rc")))
+                     ("caught" + (" (after strengthening the check)" if meta["missed_before_strengthening"] else "") + ": " + ", ".join(meta["divergence_keys"])) if meta["detected"] else "MISSED (exit %s)" % d.get("check_rc")))
     with open(os.path.join(ROOT, "seeded", "README.md"), "w") as f:
         f.write("# Seeded changes (written by sub-agents from the property text only; confirmed; run against the quick checks)\n\n")
         f.write("| seed | change | needs | result |\n|---|---|---|---|\n")
